@@ -22,6 +22,15 @@ OUT = os.environ.get('PYVC_OUT', VERIF)      # evidence/ and replays/ live here 
 def _worker(job):
     kind, key, modules, timeout_ms, findings = job
     try:
+        # one runaway query (string theory on changed code has been seen to allocate > 60 GB) must not take the machine
+        # down: z3 gives up at 6 GB ('unknown'), the address space of the worker is capped as a backstop
+        import resource
+        import z3 as _z3
+        try:
+            _z3.set_param('memory_max_size', 6000)
+            resource.setrlimit(resource.RLIMIT_AS, (16 * 1024 ** 3, 16 * 1024 ** 3))
+        except Exception:       # noqa
+            pass
         for m in modules:
             importlib.import_module(m)
         from pyvc.api import REG
